@@ -262,7 +262,29 @@ def _small_case(ctx, case):
         ctx.record_violation(bad, str(f))
 
 
+def fixed_grid(ctx):
+    """Deterministic cases for classes that random generation reaches only now and then: assertions in filter expressions away from
+    offset 0, digit-like characters next to int / float wildcards, converted values that are falsy."""
+    L = lambda t: ['lit', t]   # noqa
+    W = lambda n, f=None, a=None: ['w', n, f, a]   # noqa
+    rule_sets = [
+        [[L('/user/'), W('name', 're', '^[a-z]+$')], [L('/user/'), W('name', 're', '^[a-z]+$'), L('/x')]],
+        [[L('/w'), W('n', 're', r'\B\d+')], [L('/w'), W('n', 're', r'(?<![a-z])\d+'), L('!')]],
+        [[L('/a/'), W('t', 're', r'\bto.'), L('/'), W('d', 're', r'^\d+')]],
+        [[L('/item/'), W('id', 'int')], [L('/pow/'), W('base', 'int'), L('\u00b2')], [L('/f/'), W('v', 'float'), L('x')]],
+        [[L('/n/'), W('a', 'int'), L('/'), W('b', 'float'), L('/'), W('c')]],
+    ]
+    paths = ['/user/bob', '/user/bob/x', '/user/Bob', '/w12', '/w12!', '/wa12!', '/a/tom/42', '/a/to//7', '/item/0', '/item/-0', '/item/000', '/item/\u00b2', '/item/5\u00b2',
+             '/item/\u0663', '/item/\uff15', '/item/\u2460', '/pow/5\u00b2', '/pow/\u00b2', '/f/0.0x', '/f/1\u00b2x', '/n/0/0.0/0', '/n/-0/-0.0/', '/n/1/2/3', '/f/0x']
+    for rs in rule_sets:
+        case = {'regs': [{'ast': R._fix(a), 'choice': [2], 'method': 'GET'} for a in rs], 'spell': 0, 'paths': paths}
+        ctx.guarded(check_case, case)
+    ctx.count('fixed_grid_rule_sets', len(rule_sets))
+
+
 def run(ctx):
+    if ctx.shard == 0:
+        fixed_grid(ctx)
     for name, case in load_corpus(ID):
         ctx.guarded(check_case, case)
         ctx.count('corpus')
